@@ -5,7 +5,7 @@
    translator reads out of eval.rs / pst.rs (every entry within +-200, piece values within 0..900), at most 16 men
    a side, one kind per square and the phase formula: |eval| <= 400000 < MATE_SCORE - MAX_DEPTH = 999872. *)
 From Coq Require Import NArith ZArith List Bool.
-From Rawr Require Import Consts Bits Magic Position Eval MoveGen MakeMove EvalFacts Abs BoundFacts Closure MenCount Closure EpRetro GenLegal.
+From Rawr Require Import Consts Bits Magic Position Eval MoveGen MakeMove EvalFacts Abs BoundFacts Closure MenCount Closure EpRetro GenLegal Uci SessionInv SessionKeys.
 Local Open Scope Z_scope.
 
 (* move counters, castling rights and files, en-passant state, key, Chess960 flag and turn flag are never read *)
@@ -46,9 +46,16 @@ Proof.
   pose proof (inv16R_step u p m I Hm Hl) as I'. split; [exact I'|exact (inv16_eval _ (i16r _ I'))].
 Qed.
 
+(* at the level of the command loop: in every state reached along any script (position lines within D) the evaluation is within
+   the bound that keeps it clear of the mate range *)
+Theorem C17_eval_bounded_in_every_session_state : forall mode lines s s',
+  SessInv s -> script_dom mode s lines -> Reached mode s lines s' -> (Z.abs (eval (u_pos s')) <= 400000)%Z.
+Proof. exact session_eval_bounded. Qed.
+
 Print Assumptions C17_eval_reads_boards_only.
 Print Assumptions C17_eval_inside_mate_range.
 Print Assumptions C17_eval_bounded.
 Print Assumptions C17_eval_antisym.
 Print Assumptions C17_eval_bounded_along_play.
 Print Assumptions C17_eval_bounded_after_every_generated_move.
+Print Assumptions C17_eval_bounded_in_every_session_state.
